@@ -256,17 +256,17 @@ theorem processUpdateTail_matched (q : SemQuery) (st : LoopState) (nr : Nat) (re
   cases hw : liftErr nr (match q.where_ with
       | some w => w { nr := nr, a := recA, bnr := bnr, b := recB, nu := st.nu }
       | none => Except.ok true) with
-  | error k => simp [hw, bind, Except.bind, Except.map]
+  | error k => simp [bind, Except.bind, Except.map]
   | ok pass =>
     cases pass with
     | false =>
-      simp [hw, plainChain_write s hs, LoopState.emit, pure, Except.pure, bind, Except.bind, Except.map]
+      simp [plainChain_write s hs, LoopState.emit, pure, Except.pure, bind, Except.bind, Except.map]
     | true =>
       cases ha : liftErr nr (applyAssigns q.assigns
           { nr := nr, a := recA, bnr := bnr, b := recB, nu := st.nu + 1 } recA) with
-      | error k => simp [hw, ha, bind, Except.bind, Except.map]
+      | error k => simp [bind, Except.bind, Except.map]
       | ok up =>
-        simp [hw, ha, plainChain_write s hs, LoopState.emit, pure, Except.pure, bind, Except.bind, Except.map]
+        simp [plainChain_write s hs, LoopState.emit, pure, Except.pure, bind, Except.bind, Except.map]
 
 theorem processUpdateTail_unmatched (q : SemQuery) (st : LoopState) (nr : Nat) (recA : Row)
     (s : Sink) (hc : st.chain = plainChain s)
@@ -549,6 +549,35 @@ theorem updateOneSpec_length (q : SemQuery) (B : Table) (nr nu : Nat) (recA row 
   · rw [h1]
   · exact applyAssigns_length _ _ _ _ h3
 
+/-- the whole per-record property: an updated record keeps its number of fields, every field that is not
+assigned keeps its value, and the result is the simultaneous assignment whose right-hand sides are
+evaluated in an environment holding the ORIGINAL record, its number, and NU counting this record -/
+theorem updateOneSpec_fields (q : SemQuery) (B : Table) (nr nu : Nat) (recA row : Row) (nu' : Nat)
+    (h : updateOneSpec q B nr nu recA = .ok (row, nu')) (e : Env) (hu : IsUpdated q B nr nu recA e) :
+    e.nr = nr ∧ e.a = recA ∧ nu' = nu + 1 ∧ row.length = recA.length ∧
+    (∀ j, (∀ p ∈ q.assigns, p.1 ≠ j) → row[j]? = recA[j]?) ∧
+    simultaneousAssign q.assigns { e with nu := nu + 1 } recA = .ok row := by
+  obtain ⟨hnr, ha, _⟩ := expandRecord_env q B nr recA [e] hu.1 e (List.mem_singleton.mpr rfl)
+  have h' := updateOneSpec_updated q B nr nu recA e hu
+  rw [h] at h'
+  cases hap : applyAssigns q.assigns { e with nu := nu + 1 } recA with
+  | error k => rw [hap] at h'; cases k <;> cases h'
+  | ok up =>
+    rw [hap] at h'
+    injection h' with h'
+    injection h' with h1 h2
+    subst h1
+    exact ⟨hnr, ha, h2, applyAssigns_length _ _ _ _ hap, fun j hj => applyAssigns_untouched _ _ _ _ hap j hj,
+      applyAssigns_eq_simultaneous _ _ _ _ hap⟩
+
+/-- assigning to a field the record does not have: the error names that record (and the 1-based field) -/
+theorem updateOneSpec_bad_field (q : SemQuery) (B : Table) (nr nu : Nat) (recA : Row) (e : Env)
+    (hu : IsUpdated q B nr nu recA e) (i : Nat)
+    (h : applyAssigns q.assigns { e with nu := nu + 1 } recA = .error (.badField i)) :
+    updateOneSpec q B nr nu recA = .error (.runtime nr (some (i + 1))) := by
+  rw [updateOneSpec_updated q B nr nu recA e hu, h]
+  rfl
+
 /-- unfolding of one step of `updateSpec` in the success case -/
 theorem updateSpec_cons_ok {q : SemQuery} {B : Table} {recA : Row} {rest : Table} {nr nu : Nat} {rows : List Row}
     (h : updateSpec q B (recA :: rest) nr nu = .ok rows) :
@@ -564,33 +593,30 @@ theorem updateSpec_cons_ok {q : SemQuery} {B : Table} {recA : Row} {rest : Table
     | ok tl =>
       simp only [h1, h2, bind, Except.bind, pure, Except.pure] at h
       injection h with h
-      exact ⟨row, nu', tl, rfl, rfl, h.symm⟩
+      exact ⟨row, nu', tl, rfl, h2, h.symm⟩
 
 /-- exactly one output record per input record, in order, each with the same number of fields -/
-theorem updateSpec_forall₂ (q : SemQuery) (B : Table) (A : Table) (nr nu : Nat) (rows : List Row)
-    (h : updateSpec q B A nr nu = .ok rows) :
-    List.Forall₂ (fun row recA => row.length = recA.length) rows A := by
+theorem updateSpec_shape (q : SemQuery) (B : Table) (A : Table) (nr nu : Nat) (rows : List Row)
+    (h : updateSpec q B A nr nu = .ok rows) : rows.map List.length = A.map List.length := by
   induction A generalizing nr nu rows with
-  | nil => rw [updateSpec] at h; injection h with h; subst h; exact .nil
+  | nil => rw [updateSpec] at h; injection h with h; subst h; rfl
   | cons recA rest ih =>
     obtain ⟨row, nu', tl, h1, h2, rfl⟩ := updateSpec_cons_ok h
-    exact .cons (updateOneSpec_length q B _ _ _ _ _ h1) (ih _ _ _ h2)
+    rw [List.map_cons, List.map_cons, updateOneSpec_length q B _ _ _ _ _ h1, ih _ _ _ h2]
 
 theorem updateSpec_length (q : SemQuery) (B : Table) (A : Table) (nr nu : Nat) (rows : List Row)
-    (h : updateSpec q B A nr nu = .ok rows) : rows.length = A.length :=
-  (updateSpec_forall₂ q B A nr nu rows h).length_eq
+    (h : updateSpec q B A nr nu = .ok rows) : rows.length = A.length := by
+  have := congrArg List.length (updateSpec_shape q B A nr nu rows h)
+  simpa using this
 
 theorem updateSpec_field_count (q : SemQuery) (B : Table) (A : Table) (nr nu : Nat) (rows : List Row)
     (h : updateSpec q B A nr nu = .ok rows) (i : Nat) :
     (rows.getD i []).length = (A.getD i []).length := by
-  have hf := updateSpec_forall₂ q B A nr nu rows h
-  clear h
-  induction hf generalizing i with
-  | nil => rfl
-  | cons hd _ ih =>
-    cases i with
-    | zero => simpa using hd
-    | succ j => simpa using ih j
+  have hf := updateSpec_shape q B A nr nu rows h
+  have := congrArg (fun l => l[i]?) hf
+  simp only [List.getElem?_map] at this
+  rw [List.getD_eq_getElem?_getD, List.getD_eq_getElem?_getD]
+  cases h1 : rows[i]? <;> cases h2 : A[i]? <;> simp_all
 
 /-- NU after the records of a table prefix have been processed (numbered from `nr + 1`, starting at `nu`) -/
 def nuAfter (q : SemQuery) (B : Table) : Table → Nat → Nat → Nat
@@ -636,5 +662,177 @@ theorem nuAfter_step (q : SemQuery) (B : Table) (A : Table) (nr nu : Nat) (rows 
   have : nu_i' = nu' := hn
   rw [this]
   exact updateOneSpec_nu q B _ _ _ _ _ ho
+
+/-! ### the hash join map built by `JoinMap.build` (hypothesis `JoinMapOK` of the refinement) -/
+
+/-- a B record with all its key fields has a key, the same for the engine and the specification -/
+theorem rhsKey_ok (rhs : List (Option Nat)) (nr : Nat) (fields : Row)
+    (h : rhs.findSome? (fun ki => match ki with
+      | some i => if fields.length ≤ i then some (EngErr.joinB nr (i + 1)) else none
+      | none => none) = none) :
+    ∃ k, rhsKey rhs nr fields = .ok k ∧ rhsKeyOf rhs nr fields = some k := by
+  induction rhs with
+  | nil => exact ⟨[], rfl, rfl⟩
+  | cons ki rest ih =>
+    rw [List.findSome?_cons] at h
+    split at h
+    · cases h
+    · rename_i hki
+      obtain ⟨k, h1, h2⟩ := ih h
+      unfold rhsKey at h1
+      unfold rhsKeyOf at h2
+      unfold rhsKey rhsKeyOf
+      cases ki with
+      | none =>
+        refine ⟨Val.nat nr :: k, ?_, ?_⟩
+        · rw [List.mapM_cons, h1]; rfl
+        · rw [List.mapM_cons, h2]; rfl
+      | some i =>
+        have hi : ¬ fields.length ≤ i := by
+          intro hi; simp [hi] at hki
+        refine ⟨fields.getD i Val.none :: k, ?_, ?_⟩
+        · rw [List.mapM_cons, h1]; simp only [if_neg hi]; rfl
+        · rw [List.mapM_cons, h2]; simp only [if_neg hi]; rfl
+
+theorem JoinMap.get_addJoinEntry (es : List (List Val × List (Nat × Nat × Row))) (k : List Val)
+    (e : Nat × Nat × Row) (m m' : Nat) (key : List Val) :
+    JoinMap.get { entries := addJoinEntry es k e, maxLen := m } key =
+      if k = key then JoinMap.get { entries := es, maxLen := m' } key ++ [e]
+      else JoinMap.get { entries := es, maxLen := m' } key := by
+  unfold JoinMap.get
+  simp only
+  induction es with
+  | nil => by_cases hk : k = key <;> simp [addJoinEntry, hk]
+  | cons p rest ih =>
+    obtain ⟨k', es'⟩ := p
+    by_cases h1 : k' = k <;> by_cases h2 : k' = key <;> by_cases h3 : k = key <;>
+      simp_all [addJoinEntry]
+
+/-- `HashJoinMap.build`: it succeeds when no B record lacks a key field, the null-record width is the
+longest B record, and each key maps to exactly the B records with that key, in B order, with their
+1-based numbers and lengths -/
+theorem JoinMap.build_spec (rhs : List (Option Nat)) (B : Table) (n : Nat) (jm : JoinMap)
+    (hB : (B.zipIdx n).findSome? (fun p =>
+      (rhs.findSome? (fun ki => match ki with
+        | some i => if p.1.length ≤ i then some (EngErr.joinB (p.2 + 1) (i + 1)) else none
+        | none => none))) = none) :
+    ∃ jm', JoinMap.build rhs B n jm = .ok jm' ∧
+      jm'.maxLen = B.foldl (fun m r => max m r.length) jm.maxLen ∧
+      ∀ key, jm'.get key = jm.get key ++
+        ((B.zipIdx n).filter (fun p => rhsKeyOf rhs (p.2 + 1) p.1 == some key)).map
+          (fun p => (p.2 + 1, p.1.length, p.1)) := by
+  induction B generalizing n jm with
+  | nil => exact ⟨jm, rfl, rfl, by simp⟩
+  | cons fields rest ih =>
+    rw [List.zipIdx_cons, List.findSome?_cons] at hB
+    split at hB
+    · cases hB
+    · rename_i hf
+      obtain ⟨k, hk1, hk2⟩ := rhsKey_ok rhs (n + 1) fields hf
+      obtain ⟨jm', hb, hmax, hget⟩ := ih (n + 1)
+        { entries := addJoinEntry jm.entries k (n + 1, fields.length, fields),
+          maxLen := max jm.maxLen fields.length } hB
+      refine ⟨jm', ?_, ?_, ?_⟩
+      · rw [JoinMap.build]
+        simp only [hk1, bind, Except.bind]
+        exact hb
+      · rw [hmax]; rfl
+      · intro key
+        rw [hget key, JoinMap.get_addJoinEntry _ _ _ _ jm.maxLen, List.zipIdx_cons, List.filter_cons]
+        simp only [hk2]
+        by_cases hkk : k = key
+        · simp [hkk]
+        · simp [hkk]
+
+theorem JoinMap.build_ok (q : SemQuery) (B : Table) (js : JoinSpec) (hj : q.join = some js)
+    (hjb : joinBError js.rhs B = none) :
+    ∃ jm, JoinMap.build js.rhs B 0 {} = .ok jm ∧ JoinMapOK q B jm := by
+  obtain ⟨jm, hb, hmax, hget⟩ := JoinMap.build_spec js.rhs B 0 {} hjb
+  refine ⟨jm, hb, ?_⟩
+  intro js' hj'
+  rw [hj] at hj'
+  injection hj' with hj'
+  subst hj'
+  refine ⟨hmax, ?_⟩
+  intro key
+  rw [hget key]
+  simp [partnersSpec, JoinMap.get, List.map_map, Function.comp_def]
+
+/-! ### `run` on UPDATE queries -/
+
+theorem plainChain_finish_rows (s : Sink) : (plainChain s).finish.getSink.rows = s.rows := rfl
+
+/-- `run` on an UPDATE query, for any user writer that never refuses -/
+theorem run_update_eq_spec_sink (q : SemQuery) (A B : Table) (sink : Sink) (hs : sink.refuseFrom = none)
+    (hupd : q.isUpdate = true) (hg : q.groupBy = none)
+    (hjb : ∀ js, q.join = some js → joinBError js.rhs B = none) :
+    match updateSpec q B A 0 0 with
+    | .ok rows => (run q A B sink).error = none ∧ (run q A B sink).rows = sink.rows.reverse ++ rows ∧
+        (run q A B sink).pulled = A.length
+    | .error e => (run q A B sink).error = some e := by
+  have core : ∀ (jm : JoinMap) (wb : Option (Nat × Nat × Nat × Nat)), JoinMapOK q B jm →
+      ∀ r : RunResult, r = (match mainLoop q jm A 0 { chain := buildChain q sink } with
+        | .error (e, st, n) => { sink := st.chain.getSink, error := some e, pulled := n }
+        | .ok (st, n) => { sink := (finishAll st).getSink, error := none, pulled := n,
+                           warnA := fieldsWarning (A.take n), warnB := wb }) →
+      (match updateSpec q B A 0 0 with
+       | .ok rows => r.error = none ∧ r.rows = sink.rows.reverse ++ rows ∧ r.pulled = A.length
+       | .error e => r.error = some e) := by
+    intro jm wb hjm r hr
+    subst hr
+    have hm := mainLoop_update q A B jm hupd hjm sink hs
+    cases hu : updateSpec q B A 0 0 with
+    | ok rows =>
+      rw [hu] at hm
+      obtain ⟨st, hml, hagg, _, hch, _⟩ := hm
+      simp only [hml, finishAll, hagg, hch, RunResult.rows, plainChain_finish_rows, Sink.pushAll_rows]
+      simp
+    | error e =>
+      rw [hu] at hm
+      obtain ⟨st, k, pre, hml, _⟩ := hm
+      simp only [hml]
+  unfold run
+  simp only [hg, Option.isSome_none, Bool.false_and, Bool.false_eq_true, if_false]
+  cases hj : q.join with
+  | none =>
+    have hjm : JoinMapOK q B {} := fun js h => by rw [hj] at h; cases h
+    exact core {} _ hjm _ rfl
+  | some js =>
+    obtain ⟨jm, hb, hjm⟩ := JoinMap.build_ok q B js hj (hjb js hj)
+    simp only [hb]
+    exact core jm _ hjm _ rfl
+
+/-- **UPDATE: `run` = `updateSpec`** -/
+theorem run_update_eq_spec (q : SemQuery) (A B : Table) (hupd : q.isUpdate = true) (hg : q.groupBy = none)
+    (hjb : ∀ js, q.join = some js → joinBError js.rhs B = none) :
+    match updateSpec q B A 0 0 with
+    | .ok rows => (run q A B).error = none ∧ (run q A B).rows = rows ∧ (run q A B).pulled = A.length
+    | .error e => (run q A B).error = some e := by
+  have h := run_update_eq_spec_sink q A B {} rfl hupd hg hjb
+  cases hu : updateSpec q B A 0 0 with
+  | ok rows => rw [hu] at h; simpa using h
+  | error e => rw [hu] at h; exact h
+
+/-- **the UPDATE property for `run`**: when the query succeeds, every input record was pulled, the output
+has one record per input record, in order and with the same number of fields, and the `i`-th output
+record is `updateOneSpec` of the `i`-th input record (see `updateOneSpec_ok`, `updateOneSpec_fields`,
+`updateOneSpec_nu` for what that means) with NU = the number of records updated before it -/
+theorem run_update_property (q : SemQuery) (A B : Table) (hupd : q.isUpdate = true) (hg : q.groupBy = none)
+    (hjb : ∀ js, q.join = some js → joinBError js.rhs B = none) (hok : (run q A B).error = none) :
+    (run q A B).pulled = A.length ∧
+    (run q A B).rows.map List.length = A.map List.length ∧
+    ∀ i (hi : i < A.length), ∃ row nu', (run q A B).rows[i]? = some row ∧
+      updateOneSpec q B (i + 1) (nuAfter q B (A.take i) 0 0) A[i] = .ok (row, nu') ∧
+      nuAfter q B (A.take (i + 1)) 0 0 = nu' := by
+  have h := run_update_eq_spec q A B hupd hg hjb
+  cases hu : updateSpec q B A 0 0 with
+  | error e => rw [hu] at h; rw [hok] at h; cases h
+  | ok rows =>
+    rw [hu] at h
+    obtain ⟨_, hrows, hp⟩ := h
+    rw [hrows]
+    refine ⟨hp, updateSpec_shape q B A 0 0 rows hu, fun i hi => ?_⟩
+    have := updateSpec_record q B A 0 0 rows hu i hi
+    simpa using this
 
 end Rbql
